@@ -387,6 +387,20 @@ REJECT_ENUM = ['', '#[ts(tag = "t")]', '#[ts(tag = "t", content = "c")]', '#[ts(
 REJECT_VARIANT = ['', '#[ts(as = "String")]', '#[ts(type = "string")]', '#[ts(rename = "Z")]', '#[ts(untagged)]']
 
 
+REJECT_ITEMS = [
+    ('unknown container key', '#[ts(bogus)] struct S { x: i32 }'), ('unknown container key', '#[ts(bogus)] struct S(i32, i32);'),
+    ('unknown container key', '#[ts(bogus)] struct S;'), ('unknown container key', '#[ts(bogus = "x")] enum S { A }'),
+    ('unknown variant key', 'enum S { #[ts(bogus)] A, B }'), ('unknown variant key', '#[ts(tag = "t")] enum S { #[ts(bogus = 1)] A { x: i32 } }'),
+    ('malformed value', '#[ts(rename_all = "camelcase")] struct S { x: i32 }'), ('malformed value', '#[ts(rename_all = 5)] enum S { A }'),
+    ('malformed value', '#[ts(tag = 5)] enum S { A }'),
+    ('malformed value', 'enum S { #[ts(rename_all = "nope")] A { x: i32 } }'), ('malformed value', '#[ts(rename_all_fields = "nope")] enum S { A { x: i32 } }'),
+    ('type x as (container)', '#[ts(type = "a", as = "String")] struct S { x: i32 }'), ('type x as (variant)', 'enum S { #[ts(type = "a", as = "String")] A(i32) }'),
+    ('untagged x tag', '#[ts(untagged, tag = "t")] enum S { A, B(i32) }'), ('untagged x tag', '#[ts(untagged, tag = "t")] enum S { A { x: i32 } }'),
+    ('content without tag', '#[ts(content = "c")] enum S { A(i32) }'), ('content without tag', '#[ts(content = "c")] enum S { A { x: i32 } }'),
+    ('untagged x content', '#[ts(untagged, content = "c")] enum S { A(i32) }'), ('untagged x content', '#[ts(untagged, content = "c")] enum S { #[ts(skip)] H, A { x: i32 } }'),
+]
+
+
 def rejection_part(rep):
     """Native guard (the real derive, compiled, run on concrete inputs -- no solver): every documented-invalid field attribute set is
     rejected in EVERY position a field can occur in (struct / tuple struct / newtype, and the three variant shapes under every tagging
@@ -403,6 +417,10 @@ def rejection_part(rep):
                     src = tmpl.format(A=attr, F=fty, E=e, V=v)
                     reqs.append(['expand', src])
                     meta.append((pname, what, src))
+    # container- and variant-level inputs that are invalid on any reading of the documentation
+    for what, src in REJECT_ITEMS:
+        reqs.append(['expand', src])
+        meta.append(('item', what, src))
     ans = nat.batch(reqs)
     ob = di = 0
     for (pname, what, src), a in zip(meta, ans):
